@@ -143,7 +143,13 @@ func (s *IndexStorage) Index() (i *index.Index, err error) {
 // mutating them in place.
 func copyIndex(idx *index.Index) *index.Index {
 	cp := *idx
+	// Deep-copy the entries: callers mutate them in place (Add, sparse
+	// checkout) before writing the index back, and a failed write must
+	// not leave those mutations in the cached view.
 	cp.Entries = make([]*index.Entry, len(idx.Entries))
-	copy(cp.Entries, idx.Entries)
+	for i, e := range idx.Entries {
+		ec := *e
+		cp.Entries[i] = &ec
+	}
 	return &cp
 }
